@@ -46,6 +46,10 @@ def allow(ev):
 
 
 def check(rep, an, tier):
+    R.rule_alias(rep, an.model, "dreye.api.estimator", "ReceptorEstimator", "in_gamut", "in_hull")
+    # the bounds every clause below speaks of are the REGISTERED ones: registration keeps / replaces exactly what it is given
+    from .C14 import register_bounds_rule
+    register_bounds_rule(rep, an)
     spec = CC.hooks()
     for cfg in lsq_configs(tier, AXES):
         kw = CC.geometry_inputs(K=cfg["K"], baseline=cfg["baseline"], ub=cfg["ub"], lb=cfg["lb"], Brank=cfg["Brank"])
